@@ -1985,6 +1985,10 @@ class OrderRowsNode(ViewRepresentation):
         if isinstance(reverse, str):
             reverse = [reverse]
         self.reverse = [c for c in reverse]
+        if limit is not None:
+            if int(limit) != limit:
+                raise ValueError("limit must be an integer")
+            limit = int(limit)
         self.limit = limit
         have = source.column_names
         unknown = set(self.order_columns) - set(have)
